@@ -163,7 +163,14 @@ func newType(ty an.Type) Type {
 					return Builtin{t: ty, name: basicTypeName(basic)}
 				}
 			} else if time, ok := an.NewTime(elem.Type()); ok {
-				tyT := time.(*an.Time)
+				// user defined time types are wrapped in a Named
+				if named, isNamed := time.(*an.Named); isNamed {
+					time = named.Underlying
+				}
+				tyT, isTime := time.(*an.Time)
+				if !isTime {
+					panic("unsupported time type in nullable field " + elem.Name())
+				}
 				if tyT.IsDate {
 					return Builtin{t: ty, name: "date"}
 				}
